@@ -114,7 +114,7 @@ Qed.
 
 Lemma upd_cond_mem : forall dst ktu k, memk k ktu = true -> upd_cond dst ktu k = true.
 Proof.
-  intros dst ktu k H. unfold upd_cond. rewrite H, orb_true_r. cbn [orb]. rewrite andb_true_r.
+  intros dst ktu k H. unfold upd_cond. rewrite H, orb_true_r, andb_true_r.
   apply existsb_exists. apply memk_In in H. exists k. split; [assumption|apply String.eqb_refl].
 Qed.
 
@@ -677,10 +677,9 @@ Fixpoint noseqsel (n : node) : bool :=
   | Seq c ms => negb (is_some (ssel c)) && forallb noseqsel ms
   end.
 Definition all_outs (n : node) : list key := flat_map outs (leaves n).
-(* keys sharing their first component are siblings below a nested node: no key is the bare name of a node another key
-   lives under *)
-Definition sibling_ok (U : list key) : Prop :=
-  forall k k', List.In k U -> List.In k' U -> hdk k = hdk k' -> k = k' \/ (nested k = true /\ nested k' = true).
+(* no two distinct keys of the universe share their first component (in particular: only top-level keys): the D143
+   region is excluded *)
+Definition sibling_ok (U : list key) : Prop := forall k k', List.In k U -> List.In k' U -> hdk k = hdk k' -> k = k'.
 Definition within (U : list key) (t : td) : Prop := forall k, has k t = true -> List.In k U.
 
 Lemma get_write_all_frame : forall kvs d k, ~ List.In k (map fst kvs) -> get k (write_all kvs d) = get k d.
@@ -709,21 +708,18 @@ Proof.
   - apply andb_true_iff in C as [_ C]. now right.
   - left. exact H.
 Qed.
-Lemma nested_single : forall f, nested [f] = false.
-Proof. reflexivity. Qed.
+Lemma upd_cond_hd : forall dst ktu k, upd_cond dst ktu k = true -> exists k', List.In k' ktu /\ hdk k' = hdk k.
+Proof.
+  intros dst ktu k H. unfold upd_cond in H. apply andb_true_iff in H as [H _]. apply existsb_exists in H as [k' [Hk E]].
+  exists k'. split; [assumption|]. now apply String.eqb_eq.
+Qed.
 Lemma upd_ktu_frame : forall U dst src ktu k, sibling_ok U -> within U src -> (forall k', List.In k' ktu -> List.In k' U) ->
   ~ List.In k ktu -> get k (upd_ktu dst src ktu) = get k dst.
 Proof.
   intros U dst src ktu k HU Hs Hk Hn. rewrite get_upd_ktu.
   destruct (upd_cond dst ktu k && has k src) eqn:C; [|reflexivity].
-  apply andb_true_iff in C as [C1 C2]. exfalso. unfold upd_cond in C1. apply andb_true_iff in C1 as [C1 C3].
-  apply existsb_exists in C1 as [k' [Hk' E]]. apply String.eqb_eq in E.
-  assert (Mk : memk k ktu = false) by now apply memk_false. rewrite Mk, orb_false_r in C3.
-  apply orb_true_iff in C3 as [C3|C3].
-  - destruct (HU k' k (Hk k' Hk') (Hs k C2) E) as [->|[_ N]]; [contradiction|]. rewrite N in C3. discriminate.
-  - apply andb_true_iff in C3 as [C3 _]. apply memk_In in C3.
-    destruct (HU [hdk k] k (Hk _ C3) (Hs k C2) eq_refl) as [E2|[N _]]; [|discriminate].
-    apply Hn. now rewrite <- E2.
+  apply andb_true_iff in C as [C1 C2]. destruct (upd_cond_hd _ _ _ C1) as [k' [Hk' E]].
+  exfalso. apply Hn. rewrite <- (HU k' k (Hk k' Hk') (Hs k C2) E). exact Hk'.
 Qed.
 
 Lemma out_keys_child : forall ms m k, List.In m ms -> List.In k (out_keys m) -> List.In k (all_out_keys ms).
@@ -921,7 +917,12 @@ Proof. reflexivity. Qed.
 Definition d141_node := Leaf (mksel 1 [ka] [ka; kb] [kb]).
 Lemma footprint_D141_repaired : fwd d141_node [(ka, In ka)] None = Done [(ka, In ka); (kb, App 1 1 [In ka])] None RIn.
 Proof. reflexivity. Qed.
+(* D143 (kept: test_update_select pins it): update(keys_to_update=[(n,x)]) copies the sibling (n,y) into a tensordict_out
+   that has no node n *)
 Definition d143_node := Seq dcfg [Leaf (mk 1 [ka] [knx])].
 Definition d143_x : td := [(ka, In ka); (kny, In kny)].
-Lemma footprint_D143_repaired : oa (fwd d143_node d143_x (Some [])) = Some [(knx, App 1 0 [In ka])].
-Proof. reflexivity. Qed.
+Lemma footprint_refuted_tout : exists n x ot k, ~ List.In k (out_keys n) /\ noseqsel n = true /\ ~ footprint_statement n x (Some ot) k.
+Proof.
+  exists d143_node, d143_x, [], kny. split; [cbn; intros [H|[]]; discriminate|]. split; [reflexivity|].
+  intros [_ H]. vm_compute in H. discriminate.
+Qed.
